@@ -440,11 +440,11 @@ Section Drivers.
   (** *** callbacks that respect the relation *)
   (* the built-in callback with no target precision (target not above zero, the default): always "continue" *)
   Lemma cb_plain_no_target target a b : ltb K (zero K) target = false -> cb_plain target a = cb_plain target b.
-  Proof. intros H. unfold cb_plain, decide. rewrite H. reflexivity. Qed.
+  Proof. intros H. unfold cb_plain, decide, Translated.perform_more_iterations. rewrite H. reflexivity. Qed.
   Lemma cb_vegas_no_target target a b : ltb K (zero K) target = false -> cb_vegas target a = cb_vegas target b.
-  Proof. intros H. unfold cb_vegas, decide. rewrite H. reflexivity. Qed.
+  Proof. intros H. unfold cb_vegas, decide, Translated.perform_more_iterations. rewrite H. reflexivity. Qed.
   Lemma cb_mc_no_target target a b : ltb K (zero K) target = false -> cb_mc target a = cb_mc target b.
-  Proof. intros H. unfold cb_mc, decide. rewrite H. reflexivity. Qed.
+  Proof. intros H. unfold cb_mc, decide, Translated.perform_more_iterations. rewrite H. reflexivity. Qed.
 End Drivers.
 
 (** ** the built-in callback (after the repair of weighted_with_variance, /repo commit 1b97d17): a result is
